@@ -298,7 +298,7 @@ pub fn run(tier: Tier, seed: u64, replay: Option<String>) -> i32 {
         "explicitness is not judged where the tagged type is an untagged CHOICE (through references): the property itself says the marking there is not observable".into(),
     ];
     let e = |m: &ModuleSet| eval(m);
-    let grun = GenericRun { gcfg: gen_cfg(), n: tier.pick(6000, 150000), stream_len: 4000, salt: 3, shrink_budget: 300, max_violations: 4, eval: &e };
+    let grun = GenericRun { gcfg: gen_cfg(), n: tier.pick(30000, 300000), stream_len: 4000, salt: 3, shrink_budget: 300, max_violations: 4, eval: &e };
     if let Some(p) = replay {
         let r = replay_generic(&mut ctx, &grun, "c03", &p);
         let code = ctx.finish();
